@@ -978,13 +978,11 @@ class SyncObj(object):
                 if matchIdx is False:
                     # The snapshot could not be loaded: nothing was installed and nothing of the local log was
                     # verified against the leader. No acknowledgement, the commit index stays where it is.
-                    self.__forceLogCompaction = True
                     return
                 if matchIdx is not None:
                     # Stale snapshot (the leader acted on an outdated reply): its last entry is in the local log
-                    # already. State and log are kept (entries above it may be committed on the strength of this
-                    # node's acknowledgement), the stored snapshot is renewed and the leader is told where to go on.
-                    self.__forceLogCompaction = True
+                    # already. State, log and the stored snapshot are kept (entries above it may be committed on the
+                    # strength of this node's acknowledgement) and the leader is told where to go on.
                     self.__sendNextNodeIdx(node, nextNodeIdx=matchIdx + 1, success=True)
                     return
                 self.__sendNextNodeIdx(node, success=True)
@@ -1456,7 +1454,7 @@ class SyncObj(object):
 
     def __loadDumpFile(self, clearJournal):
         try:
-            data = self.__serializer.deserialize()
+            data = self.__serializer.deserialize(incoming=clearJournal)
             if clearJournal:
                 # Received from the leader: useless if it ends within the committed prefix or at an entry held here
                 snapshotIdx, snapshotTerm = data[1][1], data[1][2]
@@ -1465,6 +1463,8 @@ class SyncObj(object):
                 ownEntries = self.__getEntries(snapshotIdx, 1)
                 if ownEntries and ownEntries[0][2] == snapshotTerm:
                     return snapshotIdx
+                # It will be installed: only now does it replace the stored snapshot
+                self.__serializer.acceptTransmission()
             if data[0] is not None:
                 if self.__consumers:
                     selfData = data[0][0]
